@@ -14,6 +14,7 @@ PROPS = {
     "C04": grid_prop(12000, 500000, floors=dict(FAMS, **{"state:pending": 0.05, "state:merged": 0.02, "state:constructing": 0.03, "state:coeff-overwritten": 0.05, "batch>=32": 0.3, "x:support-boundary": 0.1})),
     "C07": grid_prop(15000, 600000, floors=dict(FAMS, **{"limits": 0.2, "scale:vector": 0.02, "scale:raw": 0.02, "classic:tol-gap": 0.05, "classic:tol0": 0.03, "merge": 0.03,
                      "strategy:classic": 0.01, "strategy:parents": 0.01, "strategy:direction": 0.01, "strategy:fds": 0.01, "strategy:stable": 0.01})),
+    "C08": grid_prop(20000, 800000, hang_is_violation=True, floors=dict(FAMS, **{"type:curved": 0.05, "limits:binding": 0.2, "limits:persisted-call": 0.1, "limits:-1-mixed": 0.1, "limits:saturated-return": 0.03})),
     "C06": grid_prop(40000, 1500000,
                      floors={"fam:global": 0.08, "fam:sequence": 0.08, "fam:localp": 0.08, "fam:wavelet": 0.08, "fam:fourier": 0.08,
                              "fmt:ascii": 0.35, "sec:pending": 0.04, "sec:construction": 0.04, "sec:transform": 0.04, "sec:limits": 0.04}),
@@ -26,6 +27,10 @@ NOT_APPLICABLE = {}
 
 _TB = "Trusted base: the harness (decoder, reference models, oracles) and the sanitizer runtimes; generation is random, so absence of violations is evidence for the explored distribution only (reported in the evidence file)."
 META = {
+    "C08": dict(technique="stateful property-based testing (rapidcheck, structure-aware byte decoder): limits model + 1-D reference node sets built from 1-D grids of depth = limit, metamorphic check of the -1 entries, per-case watchdog for termination; ASan/UBSan",
+                text="Generated limits vectors (entries -1,0..3) are supplied at make time or by later calls, replaced, cleared or omitted, across generated sequences of update / anisotropic and surplus refinement / construction-candidate calls on all families and depth types; "
+                     "getLevelLimits() must follow the model, every point that appears while limits are in force must lie on 1-D nodes of level <= limit, -1 must equal an unreachable limit, and every call must return (a reproducible watchdog hit is a violation). Exploration.",
+                note=_TB + " A hang is reported only if the minimised case exceeds a 30 s budget in three isolated replays (normal cost < 50 ms)."),
     "C07": dict(technique="stateful property-based testing (rapidcheck, structure-aware byte decoder) against a reference model (coordinate sets + coordinate->value dictionary) and an independent re-evaluation of the classic surplus rule; ASan/UBSan",
                 text="Generated sequences of load/reload/refine/update/merge/clear calls on all grid families are executed against the library and a reference model; after every step the loaded/needed sets must be duplicate-free, disjoint and follow the documented set algebra, "
                      "every value must stay attached (bitwise) to the coordinates it was supplied for, refinement/update must leave loaded points, values and surrogate bitwise unchanged, and classic surplus refinement of local polynomial and wavelet grids must propose exactly "
